@@ -1887,7 +1887,8 @@ class ConstraintSignature(BaseSignature):
         return (other is not None and
                 self.name == other.name and
                 self.type is other.type and
-                dict.__eq__(self.attrs, other.attrs))
+                dict.__eq__(self._get_norm_attrs(),
+                            other._get_norm_attrs()))
 
     def __hash__(self):
         """Return a hash of the signature.
@@ -1898,7 +1899,25 @@ class ConstraintSignature(BaseSignature):
             int:
             The hash of the signature.
         """
-        return hash(repr(self))
+        return hash(repr((self.name, self.type,
+                          sorted(six.iteritems(self._get_norm_attrs()),
+                                 key=lambda pair: pair[0]))))
+
+    def _get_norm_attrs(self):
+        """Return the attributes in a form suitable for comparison.
+
+        Tuples are turned into lists, so that a signature compares equal to
+        itself after being stored as JSON and loaded back (which turns the
+        tuple of field names of a unique constraint into a list).
+
+        Returns:
+            dict:
+            The normalized attributes.
+        """
+        return {
+            key: (list(value) if isinstance(value, tuple) else value)
+            for key, value in six.iteritems(self.attrs or {})
+        }
 
     def __repr__(self):
         """Return a string representation of the signature.
